@@ -273,6 +273,41 @@ def run(sc, workdir):
             emit(mev)
         dk.release()
         bk.release()
+    # ---- a sibling derivation: same name, same new-parameter table, same placement - only a constant of the
+    # translation differs.  Built in the same process against the same compiled-model cache, it must be its own model.
+    if sc.get("directed"):
+        import copy
+        assign2 = copy.deepcopy(assign)
+        assign2[-1 if len(removed) == 1 else [a["lhs"] for a in assign2].index(first)]["expr"] = \
+            ["*", ["const", "0.5"], assign[[a["lhs"] for a in assign].index(first)]["expr"]]
+        translation2 = "\n".join("%s = %s" % (a["lhs"], ctext(a["expr"])) for a in assign2)
+        try:
+            dinfo2 = core.reparameterize(base_info, new_defs, translation2, filename=os.path.join(workdir, name + ".py"),
+                                         insert_after=ia, name=name)
+            dmodel2 = core.build_model(dinfo2, dtype="double", platform="dll")
+            dk, bk = dmodel2.make_kernel(q1), bmodel.make_kernel(q1)
+            env = {}
+            for p in dinfo2.parameters.kernel_parameters:
+                if p.length == 1:
+                    env[p.id] = float(xvals[p.id]) if p.id in xvals else float(p.default)
+            full = dict(env)
+            for a in assign2:
+                full[a["lhs"]] = pyeval(a["expr"], full)
+            T = {p.id: full[p.id] for p in kpars if p.length == 1}
+            ev = {"tid": tid, "ev": "Point", "trace": "reparam", "model": base_info.id, "dim": "1d", "exact": exact,
+                  "assign": assign2, "env": {k: fstr(v) for k, v in env.items()}, "T": {k: fstr(v) for k, v in T.items()},
+                  "raised": "", "mode": 0, "translation": translation2}
+            try:
+                ev["der"] = outputs(dk, dict(env, scale=1.0, background=0.0), 0)
+                ev["bas"] = outputs(bk, dict(T, scale=1.0, background=0.0), 0)
+            except Exception as exc:
+                ev["raised"] = (type(exc).__name__ + ": " + str(exc))[:200].replace('"', "'")
+                ev["der"] = ev["bas"] = {"I": [], "F2": [], "F1": [], "reff": "0.0", "vshell": "0.0", "ratio": "0.0"}
+            emit(ev)
+            dk.release()
+            bk.release()
+        except ValueError:
+            pass
 
 
 def main():
